@@ -1,1 +1,284 @@
-/-! Property theorems for C10 (see /verif/DESIGN.md). Only property theorems and non-vacuity examples live here. -/
+import Proofs.C10Substr
+import Proofs.C10Chars
+import Proofs.C10Index
+import Proofs.C10Sub
+import Proofs.C10Align
+import Proofs.C10Gen
+/-!
+# C10 — string, regex and int() builtins obey their defining equations
+
+Theorems over the model `GoawkModel.C10` (vm.go `callBuiltin`, functions.go `substrChars`/`substrLengthChars`/`sub`/`split`,
+value.go `floatToInt`). No bound on string length, positions, lengths or number of matches.
+
+Standing assumptions, visible as hypotheses: a Go string is shorter than 2^63-1 bytes (`s.length < maxInt`); the amd64
+result of converting NaN to an integer is `minInt` (only `substr` with NaN is affected and it is excluded, as in the property);
+Go's `regexp` is abstract — theorems quantify over *every* match position / match list with the stated shape
+(`a ≤ b ≤ |s|`, `MatchesWF`, `Aligned`), and the harness checks on every run that the real `regexp` delivers that shape.
+-/
+namespace GoawkModel.C10.Props
+open GoawkModel GoawkModel.C10
+
+/-! ## substr -/
+
+/-- `substr(s, m, n)`, both modes: skip `max 1 ⌊m⌋ - 1` units (everything for +∞), then take `⌊n⌋` units (none if negative,
+all that is left for +∞ or when fewer remain — `List.take`). Units are bytes, or runes in character mode. All finite, huge
+and infinite m, n. -/
+theorem substr_spec (chars : Bool) (s : Bytes) (m n : Num) (hs : (s.length : Int) < maxInt) (hm : m ≠ .nan) (hn : n ≠ .nan) :
+    awkSubstrLen chars s m n =
+      some (((units chars s).drop (skipCount (units chars s).length m)).take (takeCount (units chars s).length n)).flatten :=
+  awkSubstrLen_spec chars s m n hs hm hn
+
+/-- `substr(s, m)`: all remaining units -/
+theorem substr_spec_two (chars : Bool) (s : Bytes) (m : Num) (hs : (s.length : Int) < maxInt) (hm : m ≠ .nan) :
+    awkSubstr chars s m = some ((units chars s).drop (skipCount (units chars s).length m)).flatten :=
+  awkSubstr_spec chars s m hs hm
+
+/-- the slice expressions in both implementations never go out of range (no run-time panic), NaN included -/
+theorem substr_total (chars : Bool) (s : Bytes) (m n : Num) :
+    (awkSubstrLen chars s m n).isSome ∧ (awkSubstr chars s m).isSome := by
+  constructor
+  · have e : awkSubstrLen chars s m n = (if chars then substrLenChars s (floatToInt m) (floatToInt n)
+        else substrLenBytes s (floatToInt m) (floatToInt n)) := rfl
+    rw [e, substrLen_units]; rfl
+  · have e : awkSubstr chars s m = (if chars then substrChars s (floatToInt m) else substrBytes s (floatToInt m)) := rfl
+    rw [e, substr_units]; rfl
+
+/-- in character mode every result is a run of whole runes of `s`: a valid UTF-8 sequence is never cut (any m, n, NaN too) -/
+theorem substr_chars_no_cut (s : Bytes) (m n : Num) :
+    (∃ j l, awkSubstrLen true s m n = some (((runes s).drop j).take l).flatten) ∧
+    (∃ j, awkSubstr true s m = some ((runes s).drop j).flatten) :=
+  ⟨⟨_, _, substrLenChars_eq s (floatToInt m) (floatToInt n)⟩, ⟨_, substrChars_eq s (floatToInt m)⟩⟩
+
+/-- the rune decomposition is lossless and `length` in character mode counts its elements -/
+theorem runes_lossless (s : Bytes) : (runes s).flatten = s ∧ awkLength true s = (runes s).length :=
+  ⟨runes_flatten s, rfl⟩
+
+/-! ## byte mode = character mode on ASCII -/
+
+theorem ascii_modes_agree (s : Bytes) (h : ∀ b ∈ s, b < 128) (m n : Num) :
+    awkSubstrLen true s m n = awkSubstrLen false s m n ∧ awkSubstr true s m = awkSubstr false s m ∧
+    awkLength true s = awkLength false s := by
+  have hu := units_ascii s h
+  refine ⟨?_, ?_, ?_⟩
+  · have e1 := substrLen_units true s (floatToInt m) (floatToInt n)
+    have e2 := substrLen_units false s (floatToInt m) (floatToInt n)
+    simp only [if_true] at e1
+    simp only [Bool.false_eq_true, if_false] at e2
+    simp only [awkSubstrLen, if_true, Bool.false_eq_true, if_false, e1, e2, hu]
+  · have e1 := substr_units true s (floatToInt m)
+    have e2 := substr_units false s (floatToInt m)
+    simp only [if_true] at e1
+    simp only [Bool.false_eq_true, if_false] at e2
+    simp only [awkSubstr, if_true, Bool.false_eq_true, if_false, e1, e2, hu]
+  · simp [awkLength, runeCount, runes_ascii s h]
+
+theorem ascii_index_match_agree (s t : Bytes) (h : ∀ b ∈ s, b < 128) (a b : Nat) (hab : a ≤ b) (hb : b ≤ s.length) :
+    awkIndex true s t = awkIndex false s t ∧ awkMatch true s (some (a, b)) = awkMatch false s (some (a, b)) ∧
+    awkMatch true s none = awkMatch false s none := by
+  have cnt : ∀ x : Bytes, (∀ c ∈ x, c < 128) → runeCount x = x.length := by
+    intro x hx; simp [runeCount, runes_ascii x hx]
+  refine ⟨?_, ?_, rfl⟩
+  · simp only [awkIndex]
+    cases hi : indexOf s t with
+    | none => rfl
+    | some i =>
+      have hle := (indexOf_some s t i hi).2.1
+      simp only [if_true, Bool.false_eq_true, if_false]
+      rw [cnt (s.take i) (fun c hc => h c (List.mem_of_mem_take hc)), List.length_take]
+      congr 2; omega
+  · simp only [awkMatch, if_true, Bool.false_eq_true, if_false]
+    rw [cnt (s.take a) (fun c hc => h c (List.mem_of_mem_take hc)),
+      cnt ((s.drop a).take (b - a)) (fun c hc => h c (List.mem_of_mem_drop (List.mem_of_mem_take hc)))]
+    simp only [List.length_take, List.length_drop]
+    congr 1 <;> omega
+
+/-! ## int() -/
+
+/-- `trunc` is truncation toward zero: the integer part, never further from zero than x, less than 1 away -/
+theorem trunc_is_truncation (q : Rat) :
+    (0 ≤ q → ((trunc q : Int) : Rat) ≤ q ∧ q < ((trunc q + 1 : Int) : Rat)) ∧
+    (q < 0 → q ≤ ((trunc q : Int) : Rat) ∧ ((trunc q - 1 : Int) : Rat) < q) :=
+  ⟨trunc_spec_nonneg q, trunc_spec_neg q⟩
+
+/-- `int(x) = trunc x` for every finite x, however large. The hypothesis is a fact about float64 (every value of magnitude
+≥ 2^63 — indeed ≥ 2^52 — is an integer), not about the code. Infinities are returned unchanged. -/
+theorem int_trunc (q : Rat)
+    (hf : (q ≤ -(9223372036854775808 : Rat) ∨ (9223372036854775808 : Rat) ≤ q) → ∃ z : Int, q = (z : Rat)) :
+    awkInt (.fin q) = .fin ((trunc q : Int) : Rat) :=
+  awkInt_fin q hf
+
+/-- the same with the float64 fact discharged: for every finite float64 value x, `int(x)` is x truncated toward zero -/
+theorem int_trunc_float64 (q : Rat) (h : IsFloat64Value q) : awkInt (.fin q) = .fin ((trunc q : Int) : Rat) :=
+  awkInt_float64 q h
+
+theorem int_inf : awkInt .pinf = .pinf ∧ awkInt .ninf = .ninf := ⟨rfl, rfl⟩
+
+/-! ## index -/
+
+/-- `strings.Index` as modelled: the first occurrence, or none when there is no occurrence at all -/
+theorem index_spec (s t : Bytes) :
+    (∀ i, indexOf s t = some i → t <+: s.drop i ∧ i ≤ s.length ∧ ∀ j, j < i → ¬ t <+: s.drop j) ∧
+    (indexOf s t = none → ∀ j, j ≤ s.length → ¬ t <+: s.drop j) ∧
+    (awkIndex false s t = 0 ↔ indexOf s t = none) ∧ (awkIndex true s t = 0 ↔ indexOf s t = none) := by
+  refine ⟨indexOf_some s t, indexOf_none s t, ?_, ?_⟩ <;>
+  · simp only [awkIndex]
+    cases indexOf s t with
+    | none => simp
+    | some i => simp; omega
+
+/-- `substr(s, index(s,t), length(t)) = t` when t occurs; in character mode provided the occurrence found by the byte
+search lies on rune boundaries of `s` (always so when t is valid UTF-8; see `index_chars_fails`) -/
+theorem index_substr_partial (chars : Bool) (s t : Bytes) (i : Nat) (hs : (s.length : Int) < maxInt) (hi : indexOf s t = some i)
+    (hal : chars = true → Aligned s i (i + t.length)) :
+    awkSubstrLen chars s (ofInt (awkIndex chars s t)) (ofInt (awkLength chars t)) = some t := by
+  obtain ⟨⟨r, hr⟩, hle, _⟩ := indexOf_some s t i hi
+  have htake : (s.drop i).take t.length = t := by rw [← hr]; simp
+  have htl : t.length ≤ s.length := by
+    have := congrArg List.length hr
+    simp only [List.length_append, List.length_drop] at this; omega
+  cases chars with
+  | false =>
+    simp only [awkIndex, hi, awkLength, Bool.false_eq_true, if_false, awkSubstrLen]
+    rw [floatToInt_ofInt _ (by simp only [minInt]; omega) (by omega), floatToInt_ofInt _ (by simp only [minInt]; omega) (by omega),
+      substrLenBytes_eq]
+    have e1 : ((i : Int) + 1 - 1).toNat = i := by omega
+    rw [e1, Int.toNat_natCast, htake]
+  | true =>
+    obtain ⟨k, l, ha, hb, hkl⟩ := hal rfl
+    have hsl := aligned_slice s k l
+    rw [← ha, ← hb, Nat.add_sub_cancel_left, htake] at hsl
+    have hk : runeCount (s.take i) = k := by rw [ha]; exact runeCount_prefix s k (by omega)
+    have hl : runeCount t = l := by rw [hsl]; exact runeCount_run s k l hkl
+    have hrl := runes_length_le s
+    simp only [awkIndex, hi, awkLength, if_true, awkSubstrLen, hk, hl]
+    rw [floatToInt_ofInt _ (by simp only [minInt]; omega) (by omega), floatToInt_ofInt _ (by simp only [minInt]; omega) (by omega),
+      substrLenChars_eq]
+    have e1 : ((k : Int) + 1 - 1).toNat = k := by omega
+    rw [e1, Int.toNat_natCast, hsl]
+
+/-- the unrestricted character-mode statement -/
+def IndexSubstrChars : Prop :=
+  ∀ (s t : Bytes) (i : Nat), indexOf s t = some i →
+    awkSubstrLen true s (ofInt (awkIndex true s t)) (ofInt (awkLength true t)) = some t
+
+/-- … is false of the code (finding G10-1): `index("é", "\xa9")` is 2 in character mode, and `substr("é", 2, 1)` is empty -/
+theorem index_chars_fails : ¬ IndexSubstrChars := by
+  intro h
+  have := h [0xc3, 0xa9] [0xa9] 1 (by decide)
+  revert this
+  decide
+
+/-! ## match -/
+
+theorem match_none_iff (chars : Bool) (s : Bytes) (loc : Option (Nat × Nat)) :
+    awkMatch chars s loc = (0, -1) ↔ loc = none := by
+  cases loc with
+  | none => simp [awkMatch]
+  | some p =>
+    obtain ⟨a, b⟩ := p
+    cases chars <;> simp [awkMatch] <;> omega
+
+/-- byte mode: `substr(s, RSTART, RLENGTH)` is the matched text, for every match position the engine can report -/
+theorem match_substr_bytes (s : Bytes) (a b : Nat) (hs : (s.length : Int) < maxInt) (hab : a ≤ b) (hb : b ≤ s.length) :
+    awkMatch false s (some (a, b)) = ((a : Int) + 1, (b : Int) - a) ∧
+    awkSubstrLen false s (ofInt (awkMatch false s (some (a, b))).1) (ofInt (awkMatch false s (some (a, b))).2)
+      = some ((s.drop a).take (b - a)) := by
+  refine ⟨rfl, ?_⟩
+  simp only [awkMatch, Bool.false_eq_true, if_false, awkSubstrLen]
+  rw [floatToInt_ofInt _ (by simp only [minInt]; omega) (by omega), floatToInt_ofInt _ (by simp only [minInt]; omega) (by omega),
+    substrLenBytes_eq]
+  have e1 : ((a : Int) + 1 - 1).toNat = a := by omega
+  have e2 : ((b : Int) - (a : Int)).toNat = b - a := by omega
+  rw [e1, e2]
+
+/-- character mode: RSTART and RLENGTH count runes, and `substr(s, RSTART, RLENGTH)` is the matched text, for every match
+whose ends are rune boundaries (Go's regexp steps by decoded runes, so its matches always are; checked by the harness) -/
+theorem match_substr_chars (s : Bytes) (a b : Nat) (hs : (s.length : Int) < maxInt) (hal : Aligned s a b) :
+    awkSubstrLen true s (ofInt (awkMatch true s (some (a, b))).1) (ofInt (awkMatch true s (some (a, b))).2)
+      = some ((s.drop a).take (b - a)) := by
+  obtain ⟨k, l, ha, hb, hkl⟩ := hal
+  have hsl := aligned_slice s k l
+  rw [← ha, ← hb] at hsl
+  have hk : runeCount (s.take a) = k := by rw [ha]; exact runeCount_prefix s k (by omega)
+  have hl : runeCount ((s.drop a).take (b - a)) = l := by rw [hsl]; exact runeCount_run s k l hkl
+  have hrl := runes_length_le s
+  simp only [awkMatch, if_true, awkSubstrLen, hk, hl]
+  rw [floatToInt_ofInt _ (by simp only [minInt]; omega) (by omega), floatToInt_ofInt _ (by simp only [minInt]; omega) (by omega),
+    substrLenChars_eq]
+  have e1 : ((k : Int) + 1 - 1).toNat = k := by omega
+  rw [e1, Int.toNat_natCast, hsl]
+
+/-! ## split -/
+
+/-- a literal separator (single character other than space, or empty): the pieces joined by it give back `s`. Holds for every
+non-space separator string the literal path accepts — ASCII, regex metacharacters, multi-byte, an invalid byte. -/
+theorem split_join (s sep : Bytes) : joinWith sep (awkSplitLit s sep) = s :=
+  joinWith_awkSplitLit s sep
+
+/-! ## sub / gsub -/
+
+/-- `gsub(r, "&", t)` leaves t unchanged and returns the number of matches -/
+theorem gsub_amp_id (s : Bytes) (ms : List (Nat × Nat)) (h : MatchesWF s 0 ms) :
+    awkSub s [38] true ms = (s, ms.length) := by
+  have := subLoop_amp ms s 0 0 h
+  simpa [awkSub] using this
+
+/-- `gsub` returns the number of matches whatever the replacement -/
+theorem gsub_count (s repl : Bytes) (ms : List (Nat × Nat)) : (awkSub s repl true ms).2 = ms.length := by
+  have := subLoop_count ms s repl 0 0
+  simpa [awkSub] using this
+
+/-- `sub` performs exactly the first of `gsub`'s replacements -/
+theorem sub_is_first (s repl : Bytes) (ms : List (Nat × Nat)) (h : MatchesWF s 0 ms) :
+    awkSub s repl false ms = awkSub s repl true (ms.take 1) :=
+  awkSub_first s repl ms h
+
+/-- `&` is the match -/
+theorem repl_amp (m : Bytes) : expand m [38] = m := by simp [expand]
+
+/-- `\&` is a literal ampersand -/
+theorem repl_escaped_amp (m : Bytes) : expand m [92, 38] = [38] := by simp [expand]
+
+/-- every replacement text built from the tokens `&`, `\&`, `\\` and other bytes means the concatenation of its tokens' meanings -/
+theorem repl_tokens (m : Bytes) (toks : List RTok) (h : ∀ t ∈ toks, t.ok) :
+    expand m (toks.flatMap RTok.render) = toks.flatMap (RTok.meaning m) :=
+  expand_tokens m toks h
+
+/-! ## the modelled source is the current source (regenerated facts) -/
+
+theorem gen_matches_floatToInt : Generated.C10Builtins.floatToInt = Expected.floatToInt := rfl
+theorem gen_matches_builtinSubstr : Generated.C10Builtins.builtinSubstr = Expected.builtinSubstr := rfl
+theorem gen_matches_builtinSubstrLength : Generated.C10Builtins.builtinSubstrLength = Expected.builtinSubstrLength := rfl
+theorem gen_matches_builtinInt : Generated.C10Builtins.builtinInt = Expected.builtinInt := rfl
+theorem gen_matches_builtinIndex : Generated.C10Builtins.builtinIndex = Expected.builtinIndex := rfl
+theorem gen_matches_builtinMatch : Generated.C10Builtins.builtinMatch = Expected.builtinMatch := rfl
+theorem gen_matches_builtinLengthArg : Generated.C10Builtins.builtinLengthArg = Expected.builtinLengthArg := rfl
+theorem gen_matches_builtinSub : Generated.C10Builtins.builtinSub = Expected.builtinSub := rfl
+theorem gen_matches_builtinGsub : Generated.C10Builtins.builtinGsub = Expected.builtinGsub := rfl
+theorem gen_matches_substrChars : Generated.C10Builtins.substrChars = Expected.substrChars := rfl
+theorem gen_matches_substrLengthChars : Generated.C10Builtins.substrLengthChars = Expected.substrLengthChars := rfl
+theorem gen_matches_sub : Generated.C10Builtins.sub = Expected.sub := rfl
+theorem gen_matches_splitCases : Generated.C10Builtins.splitCases = Expected.splitCases := rfl
+theorem gen_matches_compileRegex : Generated.C10Builtins.compileRegex = Expected.compileRegex := rfl
+theorem gen_matches_addRegexFlags : Generated.C10Builtins.addRegexFlags = Expected.addRegexFlags := rfl
+
+/-! ## non-vacuity: concrete instances meeting the hypotheses -/
+
+example : awkSubstrLen false [104, 101, 108, 108, 111] (.fin 0) (.fin 2) = some [104, 101] := by decide
+example : awkSubstrLen false [104, 101, 108, 108, 111] (.fin 2) (.fin 1000000000000000019884624838656) = some [101, 108, 108, 111] := by decide
+example : awkSubstr true [97, 0xc3, 0xa9, 0xff, 98] .pinf = some [] ∧ awkSubstr true [97, 0xc3, 0xa9, 0xff, 98] (.fin (mkRat 5 2)) = some [0xc3, 0xa9, 0xff, 98] := by decide
+example : skipCount 5 (.fin (mkRat 5 2)) = 1 ∧ takeCount 5 (.fin (-3)) = 0 ∧ skipCount 5 (.fin (-3)) = 0 := by decide
+example : awkInt (.fin (mkRat (-7) 2)) = .fin (-3) ∧ awkInt (.fin 1000000000000000019884624838656) = .fin 1000000000000000019884624838656 := by decide
+example : IsFloat64Value (mkRat (-7) 2) := Or.inr ⟨-7, 1, by decide, by decide, by decide +kernel⟩
+example : runes [97, 0xc3, 0xa9, 0xe6, 0x97, 0xa5, 0xff, 0xc3] = [[97], [0xc3, 0xa9], [0xe6, 0x97, 0xa5], [0xff], [0xc3]] := by decide
+example : Aligned [97, 0xc3, 0xa9, 98] 1 3 := ⟨1, 1, by decide, by decide, by decide⟩
+example : awkMatch true [97, 0xc3, 0xa9, 98] (some (1, 3)) = (2, 1) := by decide
+example : MatchesWF [97, 98, 99] 0 [(0, 1), (2, 3)] := by simp [MatchesWF]
+example : awkSub [97, 98, 99] [60, 38, 62] true [(0, 1), (2, 3)] = ([60, 97, 62, 98, 60, 99, 62], 2) := by decide
+example : awkSub [97, 98, 99] [60, 38, 62] false [(0, 1), (2, 3)] = ([60, 97, 62, 98, 99], 1) := by decide
+example : awkSplitLit [97, 44, 98, 44] [44] = [[97], [98], []] := by decide
+example : indexOf [97, 98, 99, 98, 99] [98, 99] = some 1 := by decide
+example : (RTok.text 120).ok := ⟨by decide, by decide⟩
+example : expand [120] ([RTok.amp, .escAmp, .text 45, .escBs].flatMap RTok.render) = [120, 38, 45, 92] := by decide
+
+end GoawkModel.C10.Props
